@@ -402,7 +402,7 @@ static void case_infer(Tape &t, Ctx &cx)
         memcpy(p, v.data(), sizeof(R) * v.size());
         return p;
     };
-    R *me = dup(f.me), *mec = dup(f.mec), *kp = dup(f.kp), *ki = dup(f.ki), *kd = dup(f.kd);
+    R *me = dup(f.me), *mec = f.shared ? me : dup(f.mec), *kp = dup(f.kp), *ki = dup(f.ki), *kd = dup(f.kd);
     // optionally a second rule base of another order, installed later on the live controller; the scratch block is then registered
     // once, sized for the larger order (every set active at once), instead of being re-registered tightly before every step
     FuzzyCfg f2;
@@ -412,11 +412,11 @@ static void case_infer(Tape &t, Ctx &cx)
     if (two)
     {
         gen_fuzzy(t, cx, f2, false);
-        me2 = dup(f2.me); mec2 = dup(f2.mec); kp2 = dup(f2.kp); ki2 = dup(f2.ki); kd2 = dup(f2.kd);
+        me2 = dup(f2.me); mec2 = f2.shared ? me2 : dup(f2.mec); kp2 = dup(f2.kp); ki2 = dup(f2.ki); kd2 = dup(f2.kd);
     }
-    struct Fr2 { R *a, *b, *c, *d, *e; void *big = nullptr; ~Fr2() { free(a); free(b); free(c); free(d); free(e); free(big); } } fr2{me2, mec2, kp2, ki2, kd2};
+    struct Fr2 { R *a, *b, *c, *d, *e; void *big = nullptr; ~Fr2() { free(a); if (b != a) { free(b); } free(c); free(d); free(e); free(big); } } fr2{me2, mec2, kp2, ki2, kd2};
     unsigned nmax = two && f2.n > f.n ? f2.n : f.n;
-    struct Fr { R *a, *b, *c, *d, *e; void *buf = nullptr; ~Fr() { free(a); free(b); free(c); free(d); free(e); free(buf); } } fr{me, mec, kp, ki, kd};
+    struct Fr { R *a, *b, *c, *d, *e; void *buf = nullptr; ~Fr() { free(a); if (b != a) { free(b); } free(c); free(d); free(e); free(buf); } } fr{me, mec, kp, ki, kd};
     if (reg_once && (two_b & 8))
     {
         // registered before the rule base is known
